@@ -543,6 +543,46 @@ var ruleOvf = &Rule{
 		}
 		out.Counts["overflow_predicates"] = npred
 		out.Floors["overflow_predicates"] = 1
+		// the predicate itself must not judge in double precision: a float64
+		// carries 53 bits, so a product or sum within 1024 of ±2^63 rounds onto
+		// the limit and an arm that only looks at float64(operand) answers "fits"
+		for _, fn := range p.execFuncs() {
+			if !isOverflowPredicate(fn) {
+				continue
+			}
+			k := 0
+			for _, b := range fn.Blocks {
+				for _, ins := range b.Instrs {
+					cv, ok := ins.(*ssa.Convert)
+					if !ok || !isInt64(cv.X.Type()) || !isFloat64(cv.Type()) {
+						continue
+					}
+					if _, isParam := cv.X.(*ssa.Parameter); !isParam {
+						continue
+					}
+					other := false
+					for _, r := range *cv.X.Referrers() {
+						if r == ssa.Instruction(cv) {
+							continue
+						}
+						if _, dbg := r.(*ssa.DebugRef); dbg {
+							continue
+						}
+						if c2, ok := r.(*ssa.Convert); ok && isFloat64(c2.Type()) {
+							continue
+						}
+						rb := r.Block()
+						if rb != nil && ((rb == b && instrIndex(b, r) > instrIndex(b, cv)) || (rb != b && b.Dominates(rb))) {
+							other = true
+						}
+					}
+					if !other {
+						k++
+						out.viol(fmt.Sprintf("%s: overflow judged in double precision #%d", fnName(fn), k), p.pos(cv.Pos()), fnName(fn), "from here on the operand is only seen as a float64: results within 1024 of ±2^63 round onto the limit (and math.MaxInt64 itself converts to 2^63), so an overflow there is reported as fitting and the int64 operation wraps")
+					}
+				}
+			}
+		}
 		for _, fn := range p.execFuncs() {
 			for _, b := range fn.Blocks {
 				for _, ins := range b.Instrs {
@@ -951,7 +991,7 @@ func init() {
 	register(ruleFinite, ruleDiv, ruleOvf, ruleF2I, ruleListIndex)
 	addProp(&PropSpec{
 		ID:          "C13",
-		Rules:       []string{"R-DIV", "R-OVF", "R-FINITE", "R-LISTINDEX", "R-TOWER", "R-F2I", "R-FOLD", "R-NUMLIT", "R-INPUT-RO", "R-PREC"},
+		Rules:       []string{"R-DIV", "R-OVF", "R-FINITE", "R-LISTINDEX", "R-TOWER", "R-F2I", "R-FOLD", "R-NUMLIT", "R-INPUT-RO", "R-PREC", "R-ERRFIRST"},
 		Explanation: "'Exact or loud' as guard discipline on SSA instructions: every division on item values is zero-tested, every raw int64 operation on item values is reachable only behind an overflow test on the same operands (falling back to the double operation), every computed double is finiteness-checked before it can become an item, every operand sequence is length-tested before its single element is read, and the three numeric representations are handled together.",
 		Decided: []string{"R-DIV: zero tests dominate / and %, the zero branch is a suppressible error", "R-OVF: raw integer arithmetic only behind an overflow test (binary) or a MinInt64 test (unary)",
 			"R-FINITE: no Inf/NaN leaves a computing function", "R-LISTINDEX: singleton test before operand[0], failing branch suppressible", "R-TOWER: numeric representations are siblings"},
